@@ -680,6 +680,10 @@ func genE2EConn(r *vRng, c e2eCfg, w *bufio.Writer, last bool) {
 		switch {
 		case x < 5:
 			stream = append(stream, "clear"...)
+			// sometimes two or three markers in a row (every one must be recognised; nothing but markers and whole frames)
+			for r.chance(30) {
+				stream = append(stream, "clear"...)
+			}
 			continue
 		case x < 9 && validCount > 0:
 			flush(validCount, true)
